@@ -162,7 +162,8 @@ def _check(e, profile, m, quota, simultaneous, kind, tiebreak, rec, seam_log, in
                             if wt.denominator != 1:
                                 raise Mismatch("random-int", r, f"non-integer weight {wt} reached random transfer")
                             pile += [[[c] for c in rk[1:]]] * int(wt)
-                    k = int(t[w]) - q
+                    # surplus, capped by what can move on (after the random_transfer fix: all transferable ballots move)
+                    k = min(int(t[w]) - q, len(pile))
                     found = None
                     for i, en in enumerate(entries):
                         if used[i]:
